@@ -166,16 +166,23 @@ def encProxy (p : Proxy) : String :=
     | some (s, h) => s!"{hexOfBytes s},{hexOfBytes h}"
   s!"{modeName p.mode},{hexOfBytes p.host},{hexOfBytes p.port},{u}"
 
-/-- known-finding class of a result list, decided from the text alone: the first entry that is not
-    well-formed by the grammar (`-` if all are) -/
+/-- how a result list stands to the grammar, decided from the text alone: `-` if every entry is
+    well-formed; `no-address` / `bad-address` if some entry has no or no well-formed `<host>:<port>`
+    (such a list must be rejected; these take precedence, so an ill-formed address is never hidden
+    behind an unknown keyword earlier in the list); otherwise `unknown-keyword-direct` (all addresses
+    well-formed, some first word not a keyword: read as DIRECT, the documented behaviour). -/
 def strictClass (s : Bytes) : String :=
   if s.isEmpty then "-" else
-  match (splitOn 59 s).find? (fun e => !entryWellFormed e) with
-  | none => "-"
+  let es := splitOn 59 s
+  match es.find? (fun e => !entryAddrWellFormed e) with
   | some e =>
     match cutAt 32 (trimSpace e) with
     | none => "no-address"
-    | some (k, _) => if isKeyword k then "hostport-not-validated" else "unknown-keyword-direct"
+    | some _ => "bad-address"
+  | none =>
+    match es.find? (fun e => !entryWellFormed e) with
+    | none => "-"
+    | some _ => "unknown-keyword-direct"
 
 def evalWith (spec : Bool) (fn fnEx url hostArg urlHost t m mx : String) : String :=
   match decEntry fn, decEntry fnEx, bytesOfHex url, bytesOfHex hostArg, bytesOfHex urlHost, decEnv t m mx with
